@@ -233,6 +233,16 @@ def c_split_cli(ctx, w):
                              "first difference": next((j for j, (x, y) in enumerate(zip(got, expected[k:k + sz]))
                                                        if x != y), min(len(got), sz))})
                 k += sz
+    else:
+        # no reader for this format ("all terminals of the tree on one line separated by whitespace"): the lines of
+        # part i are the words of the i-th slice of the generated trees
+        k = 0
+        for i, (p, sz) in enumerate(zip(parts, sizes)):
+            exp = [[l["w"] for l in tg.spec_leaves(s_)] for s_ in kept[k:k + sz]]
+            got = [l.split() for l in p.split("\n") if l.strip() != ""]
+            k += sz
+            if got != exp:
+                return ({"part": i, "lines": exp}, {"part": i, "lines": got})
     # each part is a complete file: framed like the unsplit file
     if fmt == "tigerxml":
         k = 0
